@@ -11,25 +11,26 @@ RULE = (
     "Part 'gff3' (shards = id_spec form (15: None, 'ID', two lists, two dicts, ':seqid:', ':source:', list with ':seqid:', ':start:', "
     "list with ':start:' (the first line starts at 0), four callables incl. autoincrement: with a colon in the base and a list mixing "
     "callable and key) x featuretype pattern (3 quick / 4 thorough)): per line one of 7 kinds {ID only, Name only, both, neither, two "
-    "ID values (the 2nd and 4th line spell them as a repeated key ID=a;ID=b, the others as a comma list), empty 'ID=' with Name, empty "
-    "attribute column} for 3 (quick) / 4 (thorough) lines x database {:memory:, file closed and reopened}; the ID values contain an "
-    "underscore, a quote and an escaped per-cent sign. Checked against a reference id handler: import rejected (ValueError) exactly "
-    "when a consulted id attribute is multi-valued; stored keys in file order; key uniqueness; look-up by key and by Feature returns "
-    "the exact line (two ID values in either spelling); a look-up result is the caller's own copy (editing it does not affect later "
-    "look-ups); look-up by a Feature taken from another database of the same lines in reverse order (only where keys do not depend on "
-    "line order); up to nine near-miss keys per key (key_1, swapped case, truncated, trailing blank, 'nope', '_' / '%' replaced by "
-    "letters, a bare '%', a run of '_') must be absent. Part 'gtf' (4 shards = the disable_infer_genes/transcripts combinations): 3 "
-    "lines each gene/transcript/exon (27 patterns) x 5 settings {default spec, callable, dict without gene, force_gff, default spec "
-    "with custom gtf_gene_key/gtf_transcript_key}; keys of file lines and of derived features, look-ups and absent raw keys are "
-    "checked; under the default spec a later update() naming id_spec={'exon': 'exon_id'} must key its new exon by the exon_id. "
-    "Non-trivial = rejection is expected, or some line is Name-only / neither / empty ID=, or the spec is a callable; every gtf "
-    "execution."
+    "ID values (the 2nd and 4th line spell them as a repeated key ID=a;ID=b, the others as a comma list; the 3rd line's two values are "
+    "the same value twice, still multi-valued), empty 'ID=' with Name, empty attribute column} for 3 (quick) / 4 (thorough) lines x "
+    "database {:memory:, reopened file}; the ID values contain an underscore, a quote and an escaped per-cent sign. Against a reference "
+    "id handler: import rejected (ValueError) exactly when a consulted id attribute is multi-valued; stored keys in file order; key "
+    "uniqueness; look-up by key and by Feature returns the exact line (two ID values in either spelling); a look-up result is the "
+    "caller's own copy (editing it does not affect later look-ups); look-up by a Feature taken from another database of the same lines "
+    "in reverse order (only where keys do not depend on line order); up to nine near-miss keys per key (key_1, swapped case, truncated, "
+    "trailing blank, 'nope', '_' / '%' replaced by letters, a bare '%', a run of '_') must be absent. Part 'gtf' (4 shards = the "
+    "disable_infer_* combinations): 3 lines each gene/transcript/exon (27 patterns; the first gene_id is the literal six characters "
+    "g%2C0, which GTF must not unescape) x 5 settings {default spec, callable, dict without gene, force_gff, default spec with custom "
+    "gtf keys}; keys of file lines and of derived features, look-ups and absent raw keys are checked; under the default spec a later "
+    "update() naming id_spec={'exon': 'exon_id'} must key its new exon by the exon_id. Non-trivial = rejection is expected, or some "
+    "line is Name-only / neither / empty ID=, or the spec is a callable; every gtf execution."
 )
 ASSUMPTIONS = [
     "attribute values are chosen so that reference keys never collide (collisions are C05)",
     "':field:' specs are exercised for the string columns seqid and source and the numeric column start (strand only inside a callable)",
     "on rejection only the raised exception is observed (the partially written database is not inspected)",
     "how a two-valued ID prints (comma list or repeated key) is C07's business: look-ups accept either spelling",
+    "an id attribute that names the same value twice counts as several values (rejected); GTF attribute values are taken literally (a per-cent sequence is not decoded)",
 ]
 
 LINEKINDS = ("id", "name", "both", "neither", "two_ids", "empty_id", "no_attrs")        # no_attrs: the ninth column is empty
